@@ -63,8 +63,12 @@ func r041as(c *an.Ctx, rule string) {
 		}
 		name := "(*pkg/resource." + t[0] + ")." + t[1]
 		sends := map[ssa.Instruction]bool{}
-		for _, s := range an.CallsTo(fn, busSend) {
-			sends[s] = true
+		viaHelper := map[ssa.Instruction]bool{}
+		for _, vc := range an.CallsToDeep(fn, busSend) {
+			if vc.Must {
+				sends[vc.Site] = true
+				viaHelper[vc.Site] = vc.Via != nil
+			}
 		}
 		isSend := func(in ssa.Instruction) bool { return sends[in] }
 		okSucc, okFail, okOnce := true, true, true
@@ -106,6 +110,9 @@ func r041as(c *an.Ctx, rule string) {
 							if call, ok := e.If.Cond.(*ssa.Call); ok && an.CalleeName(call) == "errors.Is" && e.Branch {
 								allowed = true
 							}
+						}
+						if sendTimeoutError(fn, r) {
+							allowed = true
 						}
 						if !allowed {
 							okFail = false
@@ -555,6 +562,33 @@ func allowedSkipEdge(cond ssa.Value, branch bool) bool {
 	case *ssa.Call:
 		if strings.HasSuffix(an.CalleeName(x), "pkg/resource.Comparer).Compare") {
 			return branch // skip when equivalent
+		}
+		// a verdict computed by a local closure / a helper the rules have not seen: every way it can produce the
+		// skipping answer must itself rest on an allowed condition
+		if f := an.TransparentCallee(x); f != nil && f.Signature.Results().Len() == 1 {
+			for _, r := range an.Returns(f) {
+				for _, lf := range an.PhiLeaves(r.Results[0]) {
+					if b, isC := an.ConstBool(lf.Val); isC {
+						if b != branch {
+							continue // the non-skipping answer
+						}
+						ok := false
+						for _, e := range append(append([]an.CondEdge{}, lf.Conds...), an.GuardingEdges(r)...) {
+							if allowedSkipEdge(e.If.Cond, e.Branch) {
+								ok = true
+							}
+						}
+						if !ok {
+							return false
+						}
+						continue
+					}
+					if !allowedSkipEdge(lf.Val, branch) {
+						return false
+					}
+				}
+			}
+			return true
 		}
 	}
 	return false
